@@ -197,9 +197,16 @@ def run_case(case, res):
             # the same grid object (and its hierarchisation operator) was used before: on the SAME coordinates with another
             # valid level assignment, or on an unrelated tree of the same size
             try:
-                if rng.random() < 0.6:
+                hmode = rng.random()
+                if hmode < 0.4:
                     hl = [trees.balanced_levels(len(x)) for x in pts1d]
                     hp = [list(x) for x in pts1d]
+                elif hmode < 0.6:
+                    hp, hl = [], []
+                    for k in range(d):   # an earlier refinement stage of the observed tree
+                        P_, L_ = trees.ancestor(rng, [float(x) for x in pts1d[k]], [int(x) for x in levs[k]])
+                        hp.append(P_)
+                        hl.append(L_)
                 else:
                     hp, hl = [], []
                     for k in range(d):
